@@ -341,6 +341,8 @@ def shrink_plan(plan):
   """Candidate simplifications beyond dropping steps: remove a whole client, cut a
   client's stream after half / all but the last of its items, drop a datagram."""
   import copy
+  from ..core import unbytes
+  plan = unbytes(plan)
   clients = plan['clients']
   if len(clients) > 1:
     for i in range(len(clients)):
